@@ -29,6 +29,7 @@ configs = st.fixed_dictionaries({
     "PYTHONUTF8": st.sampled_from(["0", "1", None]),
     "PYTHONIOENCODING": st.sampled_from(["utf-8", "ascii", "latin-1", "ascii:strict", None]),
     "PYTHONWARNINGS": st.sampled_from([None, None, "error", "default"]),
+    "PYTHONOPTIMIZE": st.sampled_from([None, None, "1", "2"]),
     "cwd": st.sampled_from(["root", "scratch"]),
     "preimport": st.sampled_from(PREIMPORTS),
 })
@@ -42,13 +43,15 @@ def run_child(task, corpus, config, timeout=120):
         with open(cf, "w", encoding="utf-8") as f:
             f.write(tagjson.dumps(corpus))
         env = {k: v for k, v in os.environ.items()
-               if k not in ("PYTHONHASHSEED", "LC_ALL", "LANG", "TZ", "PYTHONUTF8", "PYTHONIOENCODING", "PYTHONWARNINGS")}
-        for k in ("PYTHONHASHSEED", "LC_ALL", "TZ", "PYTHONUTF8", "PYTHONIOENCODING", "PYTHONWARNINGS"):
+               if k not in ("PYTHONHASHSEED", "LC_ALL", "LANG", "TZ", "PYTHONUTF8", "PYTHONIOENCODING", "PYTHONWARNINGS", "PYTHONOPTIMIZE")}
+        for k in ("PYTHONHASHSEED", "LC_ALL", "TZ", "PYTHONUTF8", "PYTHONIOENCODING", "PYTHONWARNINGS", "PYTHONOPTIMIZE"):
             if config.get(k) is not None:
                 env[k] = config[k]
         env["PYTHONPATH"] = os.pathsep.join([REPO, ROOT])
         env["PYTHONDONTWRITEBYTECODE"] = "1"
         env["VERIF_PREIMPORT"] = ",".join(config.get("preimport") or [])
+        for k, v in (config.get("extra_env") or {}).items():
+            env[k] = v
         cwd = "/" if config.get("cwd") == "root" else d
         outf = os.path.join(d, "out.json")
         p = subprocess.run([sys.executable, os.path.join(HERE, "configrun.py"), task, cf, outf],
@@ -73,7 +76,52 @@ def _verdict(f, *a, **kw):
         return type(e).__name__
 
 
+class _EnvRecorder(dict):
+    pass
+
+
+def _install_env_recorder(reads):
+    """Record which environment variables are read from code living in the repository package (import time included)."""
+    real = os.environ
+    pkg = os.path.join(os.path.realpath(REPO), "conda_content_trust") + os.sep
+
+    def note(key):
+        f = sys._getframe(2)
+        for _ in range(6):
+            if f is None:
+                break
+            if os.path.realpath(f.f_code.co_filename).startswith(pkg):
+                reads.add(str(key))
+                break
+            f = f.f_back
+
+    class Proxy(type(real)):
+        pass
+
+    orig_getitem = type(real).__getitem__
+    orig_get = type(real).get
+    orig_contains = type(real).__contains__
+
+    def __getitem__(self, k):
+        note(k)
+        return orig_getitem(self, k)
+
+    def get(self, k, default=None):
+        note(k)
+        return orig_get(self, k, default)
+
+    def __contains__(self, k):
+        note(k)
+        return orig_contains(self, k)
+    Proxy.__getitem__, Proxy.get, Proxy.__contains__ = __getitem__, get, __contains__
+    real.__class__ = Proxy
+
+
 def _child(task, corpus_file, outf):
+    env_reads = set()
+    file_opens = []
+    if task == "ambient":
+        _install_env_recorder(env_reads)
     for m in filter(None, os.environ.get("VERIF_PREIMPORT", "").split(",")):
         __import__(m)
     sys.path.insert(0, ROOT)
@@ -83,6 +131,23 @@ def _child(task, corpus_file, outf):
     assert os.path.realpath(conda_content_trust.__file__).startswith(os.path.realpath(REPO) + os.sep)
     from conda_content_trust import authentication as A, common as C
     out = []
+    if task == "ambient":
+        import builtins
+        pkg = os.path.join(os.path.realpath(REPO), "conda_content_trust") + os.sep
+        real_open = builtins.open
+
+        def rec_open(file, *a, **kw):
+            f = sys._getframe(1)
+            for _ in range(6):
+                if f is None:
+                    break
+                if os.path.realpath(f.f_code.co_filename).startswith(pkg):
+                    file_opens.append(str(file))
+                    break
+                f = f.f_back
+            return real_open(file, *a, **kw)
+        builtins.open = rec_open
+        task = "calls"
     if task == "canon":
         for v in corpus:
             out.append(hashlib.sha256(C.canonserialize(v)).hexdigest())
@@ -102,6 +167,8 @@ def _child(task, corpus_file, outf):
                 out.append("unknown-call")
     else:
         raise SystemExit("unknown task")
+    if sys.argv[1] == "ambient":
+        out = {"verdicts": out, "env_reads": sorted(env_reads), "file_opens": file_opens}
     with open(outf, "w", encoding="utf-8") as f:
         json.dump(out, f)
 
